@@ -152,6 +152,45 @@ def run(ctx):
         e = bytearray(w)
         e[9 + rng.randrange(3)] ^= 1 << rng.randrange(8)
         chk.append({"word": list(e), "mask": list(mask), "accepted": bool(RS.check(bytes(e), bytes(mask)))})
+    # aimed at a checker that evaluates fewer than the three roots (or folds them): error patterns of weight 2 that zero ONE chosen
+    # syndrome and of weight 3 that zero TWO chosen syndromes, solved over GF(2^8) by the harness for every choice of roots - a
+    # random corruption does this with probability 2^-8 / 2^-16 and never in a quick run
+    def gfpow(a, n_):
+        r_ = 1
+        for _ in range(n_):
+            r_ = gfmul(r_, a)
+        return r_
+
+    X = lambda idx, a: gfpow(gfpow(2, a), 11 - idx)           # the locator of symbol idx (highest degree first) at root alpha^a
+    naim = 0
+    for w, mask in words[: (40 if ctx.quick else 1500)]:
+        for a in (1, 2, 3):
+            i, j = rng.sample(range(12), 2)
+            ei = rng.randrange(1, 256)
+            ej = gfmul(gfmul(ei, X(i, a)), gfinv(X(j, a)))
+            e = bytearray(w)
+            e[i] ^= ei
+            e[j] ^= ej
+            chk.append({"word": list(e), "mask": list(mask), "accepted": bool(RS.check(bytes(e), bytes(mask)))})
+            naim += 1
+        for a, b in ((1, 2), (1, 3), (2, 3)):
+            i, j, k = rng.sample(range(12), 3)
+            ei = rng.randrange(1, 256)
+            det = gfmul(X(j, a), X(k, b)) ^ gfmul(X(k, a), X(j, b))
+            if det == 0:
+                continue
+            ra, rb = gfmul(ei, X(i, a)), gfmul(ei, X(i, b))
+            ej = gfmul(gfmul(ra, X(k, b)) ^ gfmul(rb, X(k, a)), gfinv(det))
+            ek = gfmul(gfmul(X(j, a), rb) ^ gfmul(X(j, b), ra), gfinv(det))
+            if not ej or not ek:
+                continue
+            e = bytearray(w)
+            e[i] ^= ei
+            e[j] ^= ej
+            e[k] ^= ek
+            chk.append({"word": list(e), "mask": list(mask), "accepted": bool(RS.check(bytes(e), bytes(mask)))})
+            naim += 1
+    ctx.note("corruptions_aimed_at_subsets_of_the_syndromes", naim)
     ctx.count(None, 65536 + len(gen) + len(chk))
     ctx.distinct = set(range(65536 + len(gen) + len(chk)))
     data = {"mul": mul, "gen": gen, "chk": chk}
